@@ -62,7 +62,7 @@ pub fn render(case: &Case, res: &exec::RunResult) -> String {
   for e in &res.events {
     match e {
       exec::Ev::Call { tid, op } => out.push_str(&format!("C {} {}\n", tid, op.text())),
-      exec::Ev::Ret { tid, res } => out.push_str(&format!("R {} {}\n", tid, res)),
+      exec::Ev::Ret { tid, res, .. } => out.push_str(&format!("R {} {}\n", tid, res)),
       exec::Ev::Panic { tid, msg } => {
         if panic.is_none() {
           panic = Some((*tid, msg.clone()));
